@@ -339,9 +339,17 @@ def isUnique (v : List β) : Bool :=
   | [] => true
   | x :: xs => noAdjDup eq x xs
 
-/-- `vectorUnion` (VectorTools.h:1812) -/
-def vectorUnion (v1 v2 : List β) : List β :=
+/-- `vectorUnion(vec1, vec2)` before the repair (VectorTools.h:1829): `unionEl = vec1`, then the
+elements of `vec2` not yet present are pushed — repeated elements of `vec1` stay repeated, against
+the documented "duplicate element will be removed".  (`extend`, VectorTools.h:1958, is this loop
+in place and documents exactly that.) -/
+def vectorUnionOrig (v1 v2 : List β) : List β :=
   v2.foldl (fun u x => if !(contains eq u x) then u ++ [x] else u) v1
+
+/-- `vectorUnion(vec1, vec2)` after the repair: both vectors go through the push-if-absent loop,
+starting from the empty vector (as the vector-of-vectors overload does) -/
+def vectorUnion (v1 v2 : List β) : List β :=
+  vectorUnionOrig eq (vectorUnionOrig eq [] v1) v2
 
 /-- `vectorIntersection` (VectorTools.h:1849) -/
 def vectorIntersection (v1 v2 : List β) : List β := v1.filter (fun x => contains eq v2 x)
